@@ -251,7 +251,7 @@ def cut_loop(I, s, st, lab, spec, cond, pre_body, post_body, at_head, auto_inv, 
             hv.pc.append(z(h))
     # ---- split on the guard
     head = hv
-    c = cond(head.copy())
+    c = cond(head)      # evaluated on the head state itself: facts introduced by the guard (round(), first-index witnesses) stay available
     outs = []
     # exit path
     ex = head.copy()
